@@ -49,6 +49,8 @@ pub struct Outcome {
     pub log_hash: u64,
     pub sample: Option<Value>,
     pub harness_error: Option<String>,
+    /// scenario-private data handed from a run to `Scenario::followups` (e.g. the fault-free I/O trace)
+    pub trace: Option<Value>,
 }
 
 impl Outcome {
@@ -126,6 +128,11 @@ pub trait Scenario: Sync {
     /// only scenarios with a subprocess may legitimately be reaped by the wall backstop
     fn has_subprocess(&self) -> bool {
         false
+    }
+    /// Follow-up plans derived from a run's outcome (e.g. the complete single-fault sweep of
+    /// the I/O trace recorded by a fault-free run). Deterministic in (plan, outcome).
+    fn followups(&self, _plan: &Value, _outcome: &Outcome) -> Vec<Value> {
+        vec![]
     }
 }
 
@@ -229,6 +236,42 @@ fn with_schedule(plan: &Value, schedule: &[u8]) -> Value {
     p
 }
 
+fn account(sum: &mut WorkerSummary, sigset: &mut BTreeSet<u64>, idx: u64, seed: u64, plan: &Value, rr: &RunResult) {
+    sum.runs += 1;
+    sum.steps += rr.outcome.steps;
+    for (k, v) in &rr.outcome.counters {
+        *sum.counters.entry(k.clone()).or_insert(0) += v;
+    }
+    for s in &rr.outcome.sigs {
+        sigset.insert(*s);
+    }
+    if let Some(h) = &rr.outcome.harness_error {
+        sum.harness_errors.push(format!("run {idx} seed {seed}: {h}"));
+    }
+    for i in &rr.outcome.inconclusive {
+        if sum.inconclusive.len() < 50 {
+            sum.inconclusive.push((idx, i.clone()));
+        }
+        *sum.counters.entry("inconclusive_runs".into()).or_insert(0) += 1;
+    }
+    if !rr.outcome.violations.is_empty() {
+        *sum.counters.entry("violating_runs".into()).or_insert(0) += 1;
+        if sum.failures.len() < 40 {
+            sum.failures.push(Failure {
+                idx,
+                seed,
+                plan: with_schedule(plan, &rr.outcome.schedule),
+                violations: rr.outcome.violations.clone(),
+            });
+        }
+    }
+    if let Some(s) = &rr.outcome.sample {
+        if sum.samples.len() < 3 {
+            sum.samples.push(s.clone());
+        }
+    }
+}
+
 /// Worker: single-threaded, never calls the SUT itself.
 pub fn worker(scn: &dyn Scenario, tier: Tier, base_seed: u64, wid: u64, nworkers: u64, deadline_s: u64, out_path: &str) {
     let env = Env::detect();
@@ -245,37 +288,22 @@ pub fn worker(scn: &dyn Scenario, tier: Tier, base_seed: u64, wid: u64, nworkers
         let seed = run_seed(base_seed, scn, idx);
         let plan = scn.plan(seed, idx, tier, &env);
         let rr = run_plan(scn, &plan, &env);
-        sum.runs += 1;
-        sum.steps += rr.outcome.steps;
-        for (k, v) in &rr.outcome.counters {
-            *sum.counters.entry(k.clone()).or_insert(0) += v;
-        }
-        for s in &rr.outcome.sigs {
-            sigset.insert(*s);
-        }
-        if let Some(h) = &rr.outcome.harness_error {
-            sum.harness_errors.push(format!("run {idx} seed {seed}: {h}"));
-        }
-        for i in &rr.outcome.inconclusive {
-            if sum.inconclusive.len() < 50 {
-                sum.inconclusive.push((idx, i.clone()));
+        account(&mut sum, &mut sigset, idx, seed, &plan, &rr);
+        let follow = scn.followups(&plan, &rr.outcome);
+        *sum.counters.entry("followup_plans".into()).or_insert(0) += follow.len() as u64;
+        for (k, fp) in follow.iter().enumerate() {
+            if start.elapsed().as_secs() > deadline_s {
+                sum.stopped_early = true;
+                break;
             }
-            *sum.counters.entry("inconclusive_runs".into()).or_insert(0) += 1;
-        }
-        if !rr.outcome.violations.is_empty() && sum.failures.len() < 40 {
-            sum.failures.push(Failure {
-                idx,
-                seed,
-                plan: with_schedule(&plan, &rr.outcome.schedule),
-                violations: rr.outcome.violations.clone(),
-            });
-        }
-        if !rr.outcome.violations.is_empty() {
-            *sum.counters.entry("violating_runs".into()).or_insert(0) += 1;
-        }
-        if let Some(s) = &rr.outcome.sample {
-            if sum.samples.len() < 3 {
-                sum.samples.push(s.clone());
+            let fr = run_plan(scn, fp, &env);
+            account(&mut sum, &mut sigset, idx, seed, fp, &fr);
+            if (idx + k as u64) % 211 == 5 && fr.crash.is_none() {
+                let fr2 = run_plan(scn, fp, &env);
+                sum.canary_checked += 1;
+                if fr2.outcome.log_hash != fr.outcome.log_hash {
+                    sum.canary_mismatch.push(idx);
+                }
             }
         }
         // determinism canary: re-execute ~1% of the runs and compare log hashes
